@@ -33,7 +33,8 @@ FLOOR = {"quick": 20000, "thorough": 20000}
 IDENTS = ["_", "__", "k", "v", "self", "it", "itertools", "importlib", "type", "setattr", "hasattr", "iter", "next",
           "tuple", "list", "slice", "globals", "locals", "__import__", "classmethod", "__class__", "operator", "cls", "mcs",
           "result", "tmp"]
-ROLES = ["global", "local", "param", "looptarget", "funcname", "classname", "classattr", "importalias", "comptarget", "nonlocal"]
+ROLES = ["global", "local", "param", "looptarget", "funcname", "classname", "classattr", "importalias", "comptarget", "nonlocal",
+         "comptarget-enclosing", "global-declared-under-local"]
 
 # feature snippets: lines using only neutral names (q0..q9, Q*, zz*) and literals; they print their own result
 FEATURES = {
@@ -114,6 +115,15 @@ def cell_program(ident, role, feat):
     if role == "nonlocal":
         return ["def host():", "    " + I + " = 'USER'", "    def inner():", "        nonlocal " + I, "        " + I + " = " + I + " + '!'"] + _ind(F, 2) + \
                ["        return " + I, "    print('obs', inner(), " + I + ")", "host()"]
+    import builtins
+    isb = hasattr(builtins, I)
+    if role == "comptarget-enclosing":
+        # the comprehension variable of the enclosing function must not capture the inner function's global / builtin
+        return ([] if isb else [I + " = 'GLOBAL'"]) + ["def host():", "    qr = [" + I + " for " + I + " in ['USER']]", "    def inner():", "        return " + I] + _ind(F) + \
+               ["    return qr, inner()", "print('obs', host()[0], repr(host()[1])[:24])"]
+    if role == "global-declared-under-local":
+        return ([] if isb else [I + " = 'GLOBAL'"]) + ["def host():", "    def inner():", "        global " + I, "        return " + I] + _ind(F) + \
+               ["    " + I + " = 'USER'", "    return " + I + ", inner()", "print('obs', host()[0], repr(host()[1])[:24])"]
     raise ValueError(role)
 
 
@@ -133,6 +143,11 @@ HELPER_TABLE = {
     'classmethod': ["class-init-subclass"],
     '__class__': ["class-body-uses"],
 }
+
+
+# (identifier, role) pairs of the same finding that fail whatever the feature: the shadowed-global load itself is spelled
+# with the builtins globals() and __import__('builtins')
+HELPER_ROLE_TABLE = {"globals": ["global-declared-under-local"], "__import__": ["global-declared-under-local"]}
 
 
 def mkenv():
@@ -155,7 +170,7 @@ def judge_cell(rec, ident, role, feat, cfg):
         return
     # known: the user binds the spelling of a builtin that the feature's generated code calls
     kf = findings.by_id("KF-helper-builtins")
-    if kf and ID in kf["properties"] and feat in HELPER_TABLE.get(ident, ()):
+    if kf and ID in kf["properties"] and (feat in HELPER_TABLE.get(ident, ()) or role in HELPER_ROLE_TABLE.get(ident, ())):
         # counterfactual re-check: with the identifier renamed to a neutral one the cell must pass
         src2 = "\n".join(cell_program("zz_neutral", role, feat)) + "\n"
         o2 = observe.differential(src2, cfg, mkenv, globals_cmp=True)
